@@ -28,6 +28,26 @@ EXT = {"json": 1, "json_value": 2, "literal": 3}
 NO_INLINE = {"flags", "json", "json_value", "literal"}
 
 
+# reader-side spellings that denote the same field as the writer-side attribute (constructor parameter names,
+# fix-up references).  Everything not listed must agree literally (modulo leading underscores).
+ALIASES = {
+    "typ": "type",
+    "mro_refs": "mro",
+}
+# per class: constructor parameter / fix-up attribute -> attribute the writer serializes
+CLASS_ALIASES = {
+    ("TupleType", "fallback"): "partial_fallback",     # TupleType.__init__: self.partial_fallback = fallback
+    ("TypeAliasType", "type_ref"): "alias.fullname",   # resolved to .alias by fixup
+}
+
+
+def norm_name(n: str) -> str:
+    if n == "?" or n.startswith("local:"):
+        return n
+    n = ".".join(p.lstrip("_") for p in n.split("."))
+    return ALIASES.get(n, n)
+
+
 class Unsupported(Exception):
     pass
 
@@ -87,6 +107,10 @@ class Extractor:
         self.helper_r: dict[str, Any] = {}
         self.tables: dict[str, list[tuple[str, str]]] = {}
         self.sites: dict[str, set[str]] = {}       # class -> tag names used at its read sites
+        self._uid = 0
+        self.names: dict[str, tuple[list[str], list[str]]] = {}
+        self.rn: dict[int, str] = {}               # reader value op -> field name
+        self.rflags: dict[int, list[str]] = {}     # reader Flags op -> names of the assigned attributes
 
     # ------------------------------------------------------------ tags
     def tag(self, n: ast.AST) -> str:
@@ -281,32 +305,32 @@ class Extractor:
             nm = call_name(e)
             c = self.cls_read(e)
             if c is not None:
-                return [("ObjRead", c)]
+                return [self.V("ObjRead", c)]
             if nm in PRIM_R and len(e.args) == 1 and is_data_arg0(e):
-                return [(PRIM_R[nm], "")]
+                return [self.V(PRIM_R[nm], "")]
             if nm == "read_flags" and is_data_arg0(e):
                 kw = {k.arg: k.value for k in e.keywords}
                 n = kw.get("num_flags") or (e.args[1] if len(e.args) > 1 else None)
                 if not (isinstance(n, ast.Constant) and isinstance(n.value, int)):
                     raise Unsupported("read_flags without literal num_flags")
-                return [("Flags", n.value, [])]
+                return [self.V("Flags", n.value, [])]
             if nm == "read_literal" and [src(a) for a in e.args] == ["data", "tag"] and env.get("tag") == "literal":
                 env["tag"] = None
-                return [("Ext", EXT["literal"], "")]
+                return [self.V("Ext", EXT["literal"], "")]
             if nm is not None and nm.startswith("read_") and nm[5:] in EXT and nm != "read_literal" and len(e.args) == 1 and is_data_arg0(e):
-                return [("Ext", EXT[nm[5:]], "")]
+                return [self.V("Ext", EXT[nm[5:]], "")]
             if self.is_dispatcher(nm):
                 tbl = self.dispatch_table(nm)  # type: ignore[arg-type]
                 if [src(a) for a in e.args] == ["data"]:
-                    return [("Nested", tbl)]
+                    return [self.V("Nested", tbl)]
                 if [src(a) for a in e.args] == ["data", "tag"] and env.get("tag") == "some":
                     env["tag"] = None
-                    return [("Nested", tbl)]
+                    return [self.V("Nested", tbl)]
                 raise Unsupported(f"dispatcher call {src(e)}")
             if nm == "read_tag":
                 raise Unsupported("read_tag outside a recognised pattern")
             if nm is not None and nm.startswith("read_") and nm in self.funcs and len(e.args) == 1 and is_data_arg0(e):
-                return [("Inl", nm[5:], "")] + self.helper_reader(nm[5:])
+                return [("Inl", nm[5:], "")] + [self.fresh(o) for o in self.helper_reader(nm[5:])]
             if nm == "range" or (isinstance(e.func, ast.Name) and e.func.id in ("set", "tuple", "list", "cast", "complex", "zip", "sorted")) \
                     or isinstance(e.func, (ast.Name, ast.Attribute)):
                 # ordinary call: arguments are evaluated left to right, then keywords
@@ -315,10 +339,11 @@ class Extractor:
                 if any(src(a) == "data" for a in e.args) or any(src(k.value) == "data" for k in e.keywords):
                     raise Unsupported(f"buffer passed to unknown function {src(e)[:60]}")
                 out: list[Any] = []
-                for a in e.args:
-                    out += self.rexpr(a, env)
+                ps = self.callee_params(e.func)
+                for i, a in enumerate(e.args):
+                    out += self.named_arg(a, env, ps[i] if ps is not None and i < len(ps) else None)
                 for k in e.keywords:
-                    out += self.rexpr(k.value, env)
+                    out += self.named_arg(k.value, env, k.arg if ps is not None else None)
                 return out
             raise Unsupported(f"call {src(e)[:60]}")
         if isinstance(e, (ast.ListComp, ast.SetComp, ast.GeneratorExp, ast.DictComp)):
@@ -336,7 +361,7 @@ class Extractor:
                 body = self.rexpr(e.key, env) + self.rexpr(e.value, env)
             else:
                 body = self.rexpr(e.elt, env)
-            return cnt + [("Rep", self.merge(body), "")]
+            return cnt + [self.wrap("Rep", self.merge(body))]
         if isinstance(e, (ast.Tuple, ast.List, ast.Set)):
             out = []
             for x in e.elts:
@@ -362,6 +387,19 @@ class Extractor:
 
     def pending_uses(self, e: ast.AST | None, env: dict[str, Any]) -> list[Any]:
         return []
+
+    def named_arg(self, a: ast.AST, env: dict[str, Any], pname: str | None) -> list[Any]:
+        """ops of one call argument; its value is named after the parameter it is passed as"""
+        before = set(self.rn)
+        sub = self.rexpr(a, env)
+        if pname is not None:
+            if isinstance(a, ast.Call) and self.callee_params(a.func) is not None:
+                for o in self.values(sub):       # TypeVarId(read_int(data), namespace=read_str(data)) -> id.raw_id, id.namespace
+                    u = self.uid(o)
+                    if u in self.rn and u not in before:
+                        self.rn[u] = pname + "." + self.rn[u]
+            self.name_ops(sub, pname)
+        return sub
 
     def range_count(self, it: ast.AST, env: dict[str, Any]) -> list[Any]:
         """`range(read_int_bare(data))` or `range(size)` with size = read_int_bare(data) pending"""
@@ -423,7 +461,22 @@ class Extractor:
                 if isinstance(s, ast.Assign) and any(uses_data(t) for t in s.targets):
                     raise Unsupported("buffer in assignment target")
                 # x.append(C.read(data)) etc.
-                out += self.rexpr(v, env) if v is not None else []
+                ops = self.rexpr(v, env) if v is not None else []
+                tgt = s.targets[0] if isinstance(s, ast.Assign) and len(s.targets) == 1 else s.target if isinstance(s, ast.AnnAssign) else None
+                if isinstance(tgt, ast.Attribute):
+                    self.name_ops(ops, tgt.attr)
+                elif isinstance(tgt, ast.Name):
+                    self.name_ops(ops, "local:" + tgt.id)
+                elif isinstance(tgt, ast.Tuple):
+                    fl = [o for o in self.values(ops) if o[0] == "Flags"]
+                    if len(fl) == 1 and len(self.values(ops)) == 1:
+                        if len(tgt.elts) != fl[0][1]:
+                            raise Unsupported(f"read_flags(num_flags={fl[0][1]}) unpacked into {len(tgt.elts)} targets")
+                        self.rflags[self.uid(fl[0])] = [t.attr if isinstance(t, ast.Attribute) else "local:" + src(t) for t in tgt.elts]  # type: ignore[index]
+                elif isinstance(s, ast.Expr) and isinstance(v, ast.Call) and isinstance(v.func, ast.Attribute) and v.func.attr in ("append", "add") \
+                        and isinstance(v.func.value, (ast.Attribute, ast.Name)):
+                    self.name_ops(ops, v.func.value.attr if isinstance(v.func.value, ast.Attribute) else "local:" + v.func.value.id)
+                out += ops
                 if isinstance(s, ast.Return) and i != len(stmts):
                     raise Unsupported("early return")
                 continue
@@ -431,7 +484,7 @@ class Extractor:
                 if s.orelse:
                     raise Unsupported("for/else")
                 cnt = self.range_count(s.iter, env)
-                out += cnt + [("Rep", self.merge(self.rstmts(s.body, env)), "")]
+                out += cnt + [self.wrap("Rep", self.merge(self.rstmts(s.body, env)))]
                 continue
             if isinstance(s, ast.If) and not uses_data(s):
                 continue
@@ -463,7 +516,7 @@ class Extractor:
                 body = self.merge(self.rstmts(nxt.body, env2))
                 if env2.get("tag") == "some":
                     raise Unsupported("optional body never checks the tag it read")
-                return [("Opt", body, "")]
+                return [self.wrap("Opt", body)]
             if t == "tag == LITERAL_NONE":
                 if [src(x) for x in nxt.body] != ["return None"] or nxt.orelse:
                     raise Unsupported("None branch shape")
@@ -472,7 +525,7 @@ class Extractor:
                 body = self.merge(self.rstmts(rest, env2))
                 if env2.get("tag") == "some":
                     raise Unsupported("optional body never checks the tag it read")
-                return [("Opt", body, "")]
+                return [self.wrap("Opt", body)]
             if t == "tag == LITERAL_COMPLEX" and len(nxt.orelse) == 1 and isinstance(nxt.orelse[0], ast.If) \
                     and src(nxt.orelse[0].test) == "tag != LITERAL_NONE" and not nxt.orelse[0].orelse:
                 # Var.final_value: the full inverse of write_literal (None, complex and read_literal)
@@ -482,13 +535,17 @@ class Extractor:
                 l_ops = self.rstmts(nxt.orelse[0].body, env2)
                 if [o[0] for o in c_ops] != ["FloatBare", "FloatBare"] or [o[:2] for o in l_ops] != [("Ext", EXT["literal"])]:
                     raise Unsupported("literal-with-complex pattern")
-                return [("Ext", EXT["literal"], "")]
+                ext = self.V("Ext", EXT["literal"], "")
+                tg = [a.targets[0].attr for a in ast.walk(nxt) if isinstance(a, ast.Assign) and isinstance(a.targets[0], ast.Attribute)]
+                if tg and all(x == tg[0] for x in tg):
+                    self.rn[self.uid(ext)] = tg[0]   # type: ignore[index]
+                return [ext]
             if t == "tag == LITERAL_TRUE" and len(nxt.orelse) == 1 and isinstance(nxt.orelse[0], ast.If) \
                     and src(nxt.orelse[0].test) == "tag == LITERAL_FALSE" \
                     and [src(x) for x in nxt.orelse[0].orelse] == ["assert tag == LITERAL_NONE"] \
                     and not any(uses_data(x) for x in nxt.body + nxt.orelse[0].body):
                 # optional bool stored as one of the tags LITERAL_TRUE / LITERAL_FALSE / LITERAL_NONE
-                return [("Opt", [("Bool", "")], "")]
+                return [self.V("Opt", [("Bool", "")], "")]
             # if/elif chain on the tag: inline dispatch table
             tbl: list[tuple[str, str]] = []
             cur: ast.stmt | None = nxt
@@ -506,12 +563,15 @@ class Extractor:
                 raise Unsupported("tag chain without final assert False")
             for tg, c in tbl:
                 self.sites.setdefault(c, set()).add(tg)
-            return [("Nested", tbl)]
+            return [self.V("Nested", tbl)]
         if isinstance(nxt, ast.Assign):
             env2 = dict(env)
             env2["tag"] = "literal"
             ops = self.rexpr(nxt.value, env2)
             if [o[:2] for o in ops] == [("Ext", EXT["literal"])]:
+                if len(nxt.targets) == 1 and isinstance(nxt.targets[0], (ast.Name, ast.Attribute)):
+                    t0 = nxt.targets[0]
+                    self.name_ops(ops, t0.attr if isinstance(t0, ast.Attribute) else "local:" + t0.id)
                 return ops
         raise Unsupported(f"statement after tag read: {src(nxt)[:60]}")
 
@@ -524,12 +584,12 @@ class Extractor:
                 if out and out[-1][0] == "Tag":
                     t = out.pop()[1]
                     self.sites.setdefault(c, set()).add(t)
-                    out.append(("Nested", [(t, c)]))
+                    out.append(("Nested", [(t, c)], o[-1]))
                 else:
                     t = self.self_read_tag(c)
                     if t is None:
                         raise Unsupported(f"{c}.read(data) without a preceding tag check")
-                    out.append(("Nested", [(t, c)]))
+                    out.append(("Nested", [(t, c)], o[-1]))
             else:
                 out.append(o)
         return out
@@ -565,11 +625,159 @@ class Extractor:
         for f in list(self.funcs.values()) + list(self.methods.values()):
             block(f.body, None)
 
+    # ------------------------------------------------------------ field names (reader side)
+    def V(self, *t: Any) -> tuple:
+        """a value-producing reader op with a fresh identity (so that the context can name it)"""
+        self._uid += 1
+        return t + (("#", self._uid),)
+
+    @staticmethod
+    def uid(o: Any) -> int | None:
+        x = o[-1]
+        return x[1] if isinstance(x, tuple) and len(x) == 2 and x[0] == "#" else None
+
+    def fresh(self, o: Any) -> Any:
+        return self.V(*o[:-1]) if self.uid(o) is not None else o
+
+    def values(self, ops: list[Any]) -> list[Any]:
+        return [o for o in ops if o[0] not in ("Tag", "Inl") and self.uid(o) is not None]
+
+    def wrap(self, kind: str, body: list[Any]) -> Any:
+        """Opt / Rep around a body: inherits the name of the body's only value"""
+        w = self.V(kind, body, "")
+        vals = self.values(body)
+        if len(vals) == 1 and self.uid(vals[0]) in self.rn:
+            self.rn[self.uid(w)] = self.rn[self.uid(vals[0])]   # type: ignore[index]
+        return w
+
+    def name_ops(self, ops: list[Any], name: str) -> None:
+        vals = [o for o in self.values(ops) if self.uid(o) not in self.rn]
+        if len(vals) == 1:
+            self.rn[self.uid(vals[0])] = name   # type: ignore[index]
+
+    def callee_params(self, f: ast.AST) -> list[str] | None:
+        """parameter names of C(...) (its __init__) or C.method(...) for classes of the three files"""
+        cls = meth = None
+        if isinstance(f, ast.Name) and f.id in self.classes:
+            cls, meth = f.id, "__init__"
+        elif isinstance(f, ast.Attribute):
+            if f.attr in self.classes and src(f.value) in ("mypy.types", "mypy.nodes", "mypy.cache"):
+                cls, meth = f.attr, "__init__"
+            else:
+                v = f.value
+                nm = v.attr if isinstance(v, ast.Attribute) else v.id if isinstance(v, ast.Name) else None
+                if nm in self.classes and f.attr != "read":
+                    cls, meth = nm, f.attr
+        if cls is None:
+            return None
+        c: str | None = cls
+        while c is not None:
+            m = self.methods.get((c, meth))   # type: ignore[arg-type]
+            if m is not None:
+                a = m.args
+                static = any(src(d) == "staticmethod" for d in m.decorator_list)
+                return [x.arg for x in a.posonlyargs + a.args][0 if static else 1:] + [x.arg for x in a.kwonlyargs]
+            bases = [b.id for b in self.classes[c].bases if isinstance(b, ast.Name) and b.id in self.classes]
+            c = bases[0] if bases else None
+        return None
+
+    def resolve_locals(self, fn: ast.FunctionDef) -> None:
+        """a value read into a local is named after the constructor parameter / attribute the local flows into"""
+        uses: dict[str, tuple[tuple[int, int], str]] = {}
+
+        def note(var: str, pos: tuple[int, int], name: str) -> None:
+            if var not in uses or pos < uses[var][0]:
+                uses[var] = (pos, name)
+        for n in ast.walk(fn):
+            if isinstance(n, ast.Call):
+                ps = self.callee_params(n.func)
+                if ps is not None:
+                    for i, a in enumerate(n.args):
+                        if isinstance(a, ast.Name) and i < len(ps):
+                            note(a.id, (n.lineno, n.col_offset), ps[i])
+                    for k in n.keywords:
+                        if isinstance(k.value, ast.Name) and k.arg:
+                            note(k.value.id, (n.lineno, n.col_offset), k.arg)
+            if isinstance(n, ast.Assign) and len(n.targets) == 1 and isinstance(n.targets[0], ast.Attribute):
+                for x in ast.walk(n.value):
+                    if isinstance(x, ast.Name) and not any(isinstance(c, ast.Call) and self.callee_params(c.func) for c in ast.walk(n.value)):
+                        note(x.id, (n.lineno + 10000, n.col_offset), n.targets[0].attr)
+        for u, nm in list(self.rn.items()):
+            if nm.startswith("local:"):
+                self.rn[u] = uses[nm[6:]][1] if nm[6:] in uses else "?"
+        for u, fl in list(self.rflags.items()):
+            self.rflags[u] = [(uses[x[6:]][1] if x[6:] in uses else "?") if x.startswith("local:") else x for x in fl]
+
+    def reader_names(self, ops: list[Any]) -> list[str]:
+        out = []
+        for o in self.values(ops):
+            u = self.uid(o)
+            if o[0] == "Flags" and u in self.rflags:
+                out.append("flags:" + ",".join(norm_name(x) for x in self.rflags[u]))
+            else:
+                out.append(norm_name(self.rn.get(u, "?")))   # type: ignore[arg-type]
+        return out
+
+    # ------------------------------------------------------------ field names (writer side)
+    def wname(self, e: ast.AST | str) -> str:
+        if isinstance(e, str):
+            try:
+                e = ast.parse(e, mode="eval").body
+            except SyntaxError:
+                return "?"
+        best: tuple[tuple[int, int], str] | None = None
+        called = {id(c.func) for c in ast.walk(e) if isinstance(c, ast.Call)}
+        inner = {id(a.value) for a in ast.walk(e) if isinstance(a, ast.Attribute)}
+        for a in ast.walk(e):
+            if isinstance(a, ast.Attribute) and id(a) not in inner:
+                parts = []
+                x: ast.AST = a
+                while isinstance(x, ast.Attribute):
+                    parts.append(x.attr)
+                    x = x.value
+                if isinstance(x, ast.Name) and x.id == "self":
+                    parts.reverse()
+                    if id(a) in called:
+                        parts = parts[:-1]
+                    pos = (a.lineno, a.col_offset)
+                    if parts and (best is None or pos < best[0]):
+                        best = (pos, ".".join(parts))
+        return norm_name(best[1]) if best else "?"
+
+    def writer_names(self, ops: list[Any]) -> list[str]:
+        """one name per top-level value op of a class writer"""
+        out: list[str] = []
+        pending: str | None = None
+        for o in ops:
+            k = o[0]
+            if k == "Inl":
+                pending = self.wname(o[2])
+            elif k == "Tag":
+                continue
+            else:
+                if pending is not None:
+                    out.append(pending)
+                    pending = None
+                elif k == "Flags":
+                    out.append("flags:" + ",".join(self.wname(x) for x in o[2]))
+                elif k in ("Opt", "Rep"):
+                    out.append(self.wname(o[2]))
+                elif k == "Dyn":
+                    out.append(self.wname(o[1]))
+                elif k == "Ext":
+                    out.append(self.wname(o[2]))
+                else:
+                    out.append(self.wname(o[1]))
+        return out
+
     # ------------------------------------------------------------ classes
     def class_schema(self, cls: str) -> tuple[list[Any], list[Any]]:
         w = self.wstmts(self.methods[(cls, "write")].body)
         rm = self.methods[(cls, "read")]
         r = self.merge(self.rstmts(rm.body, {}))
+        self.resolve_locals(rm)
+        rn = [CLASS_ALIASES.get((cls, x), x) for x in self.reader_names(r)]
+        self.names[cls] = (self.writer_names(w), rn)
         return w, r
 
 
@@ -688,6 +896,9 @@ def extract() -> dict[str, Any]:
                 res["checks"].append(f"class {cls} uses LITERAL_NONE as its tag")
     res["class_tags"] = {c: t for t, c in seen.items()}
     res["json_keys"] = json_keys(ex)
+    res["names"] = {c: nm for c, nm in ex.names.items() if c in res["schemas"]}
+    res["format_fields"] = format_fields(ex, res["names"])
+    res["class_names"] = sorted(ex.classes)
     return res
 
 
@@ -724,6 +935,82 @@ def json_keys(ex: Extractor) -> dict[str, Any]:
     return out
 
 
+# attributes one format stores and the other does not, accepted with a reason (everything else must agree)
+FORMAT_EXCEPTIONS = {
+    # VAR_FLAGS (JSON) lists is_self / is_cls, the binary flag list of Var.write does not: both are only ever set on
+    # the Var of a function's first argument, which lives in the function's local scope and is never serialized
+    "Var": ["is_cls", "is_self"],
+}
+
+
+def flag_consts() -> dict[str, list[str]]:
+    consts: dict[str, list[str]] = {}
+
+    def ev(n: ast.AST) -> list[str]:
+        if isinstance(n, ast.List):
+            return [e.value for e in n.elts]   # type: ignore[attr-defined]
+        if isinstance(n, ast.BinOp) and isinstance(n.op, ast.Add):
+            return ev(n.left) + ev(n.right)
+        if isinstance(n, ast.Name):
+            return consts[n.id]
+        raise Unsupported("flag list expression")
+    for rel in FILES:
+        for n in ast.walk(ast.parse(vlib.read_repo(rel))):
+            if isinstance(n, (ast.Assign, ast.AnnAssign)):
+                t = n.targets[0] if isinstance(n, ast.Assign) else n.target
+                if isinstance(t, ast.Name) and t.id.endswith("FLAGS") and n.value is not None:
+                    try:
+                        consts[t.id] = ev(n.value)
+                    except (Unsupported, KeyError, AttributeError):
+                        pass
+    return consts
+
+
+def self_chains(fn: ast.AST) -> set[str]:
+    out: set[str] = set()
+    inner = {id(a.value) for a in ast.walk(fn) if isinstance(a, ast.Attribute)}
+    called = {id(c.func) for c in ast.walk(fn) if isinstance(c, ast.Call)}
+    for a in ast.walk(fn):
+        if isinstance(a, ast.Attribute) and id(a) not in inner:
+            parts = []
+            x: ast.AST = a
+            while isinstance(x, ast.Attribute):
+                parts.append(x.attr)
+                x = x.value
+            if isinstance(x, ast.Name) and x.id == "self":
+                parts.reverse()
+                if id(a) in called:
+                    parts = parts[:-1]
+                if parts:
+                    out.add(norm_name(".".join(parts)))
+    # `assert not self.id.is_meta_var()` mentions self.id although only self.id.raw_id / .namespace are stored
+    return {c for c in out if not any(o.startswith(c + ".") for o in out)}
+
+
+def format_fields(ex: Extractor, names: dict[str, Any]) -> dict[str, tuple[list[str], list[str]]]:
+    """per class: attributes stored by serialize() (JSON) and by write() (binary)"""
+    consts = flag_consts()
+    out: dict[str, tuple[list[str], list[str]]] = {}
+    for cls, (wn, _) in sorted(names.items()):
+        sfn = ex.methods.get((cls, "serialize"))
+        if sfn is None:
+            continue
+        js = self_chains(sfn)
+        for c in ast.walk(sfn):
+            if isinstance(c, ast.Call) and src(c.func) == "get_flags" and len(c.args) == 2:
+                a = c.args[1]
+                nm = a.attr if isinstance(a, ast.Attribute) else a.id if isinstance(a, ast.Name) else None
+                if nm not in consts:
+                    raise Unsupported(f"{cls}.serialize: unknown flag list {src(a)}")
+                js |= set(consts[nm])
+        bn: set[str] = set()
+        for x in wn:
+            bn |= set(x[6:].split(",")) if x.startswith("flags:") else {x}
+        bn.discard("")
+        out[cls] = (sorted(js), sorted(bn))
+    return out
+
+
 HEADER = """(* GENERATED from mypy/cache.py, mypy/nodes.py, mypy/types.py by tools/extractors/t11.py
    -- do not edit; regenerated on every run *)
 From Coq Require Import ZArith List String Bool.
@@ -738,15 +1025,53 @@ def render(res: dict[str, Any]) -> str:
     for k, v in sorted(res["tags"].items(), key=lambda kv: (kv[1], kv[0])):
         out.append(f"Definition {k} := {v}.")
     out.append("")
+    for tn, tbl in sorted(res["tables"].items()):
+        out.append(f"Definition tbl_{tn} : list Z := [" + "; ".join(t for t, _ in tbl) + "].")
+    out.append("")
     names = []
+    objs = []
     for name, (w, r) in sorted(res["schemas"].items()):
         out.append(f"(* {name} *)")
-        out.append(f"Definition w_{name} : op := {coq_ops(strip(w))}.")
-        out.append(f"Definition r_{name} : op := {coq_ops(strip(r))}.")
+        sw, sr = strip(w), strip(r)
+        if sw and sr and sw[0][0] == "Tag" and sr[0] == sw[0] and name in res.get("class_names", []):
+            # an object class: tag, then body (the body is what C.read consumes after tag dispatch)
+            out.append(f"Definition wb_{name} : op := {coq_ops(sw[1:])}.")
+            out.append(f"Definition rb_{name} : op := {coq_ops(sr[1:])}.")
+            out.append(f"Definition w_{name} : op := Seq (Tag {sw[0][1]}) wb_{name}.")
+            out.append(f"Definition r_{name} : op := Seq (Tag {sw[0][1]}) rb_{name}.")
+            objs.append((sw[0][1], name))
+        else:
+            out.append(f"Definition w_{name} : op := {coq_ops(sw)}.")
+            out.append(f"Definition r_{name} : op := {coq_ops(sr)}.")
         names.append(name)
     out.append("")
     out.append("Definition schemas : list (string * (op * op)) := [")
     out.append(";\n".join(f'  ("{n}"%string, (w_{n}, r_{n}))' for n in names))
+    out.append("].")
+    out.append("")
+    out.append("(* object classes by tag: (tag, (writer body, reader body)) *)")
+    out.append("Definition obj_schemas : list (Z * (op * op)) := [")
+    out.append(";\n".join(f"  ({t}, (wb_{n}, rb_{n}))" for t, n in objs))
+    out.append("].")
+    out.append("")
+    def sl(xs: list[str]) -> str:
+        return "[" + "; ".join(f'"{x}"' for x in xs) + "]%string"
+    out.append("(* field names in writer order and in reader order (attribute / constructor parameter each value is")
+    out.append("   taken from / stored into) *)")
+    out.append("Definition names : list (string * (list string * list string)) := [")
+    out.append(";\n".join(f'  ("{c}"%string, ({sl(wn)}, {sl(rn)}))' for c, (wn, rn) in sorted(res["names"].items())))
+    out.append("].")
+    out.append("")
+    out.append("(* attributes stored by serialize() (JSON) and by write() (binary), and the accepted differences *)")
+    out.append("Definition format_fields : list (string * (list string * list string * list string)) := [")
+    out.append(";\n".join(f'  ("{c}"%string, ({sl(js)}, {sl(bn)}, {sl(FORMAT_EXCEPTIONS.get(c, []))}))'
+                          for c, (js, bn) in sorted(res["format_fields"].items())))
+    out.append("].")
+    out.append("")
+    out.append("(* JSON keys written by serialize() and read by deserialize() *)")
+    out.append("Definition json_keys : list (string * (list string * list string)) := [")
+    out.append(";\n".join(f'  ("{c}"%string, ({sl([x for x in k["written"] if x != ".class"])}, {sl([x for x in k["read"] if x != ".class"])}))'
+                          for c, k in sorted(res["json_keys"].items())))
     out.append("].")
     out.append("")
     out.append("(* classes/helpers whose write/read pair is outside the translated subset: searched only *)")
@@ -764,6 +1089,9 @@ def generate() -> dict[str, str]:
 
 if __name__ == "__main__":
     r = extract()
+    for c, (wn, rn) in sorted(r["names"].items()):
+        bad = [(i, a, b) for i, (a, b) in enumerate(zip(wn, rn)) if a != b and "?" not in (a, b)]
+        print("NAMES", c, "len", len(wn), len(rn), "unresolved w/r", wn.count("?"), rn.count("?"), "MISMATCH" if bad or len(wn) != len(rn) else "", bad, file=sys.stderr)
     print(render(r))
     print("CHECKS", r["checks"])
     print("DUP", r["dup_tags"])
